@@ -69,6 +69,20 @@ def parse_single(defn, raw: bytes, root=None):
     return step, pkt
 
 
+def reparse_same_object(defn, raw: bytes, root=None):
+    """the same RawPacketData object wrapped in two CCSDSPacket objects and parsed twice (e.g. an unrecognized packet handed
+    on to a fallback definition): returns None if both parses agree, else a description"""
+    from space_packet_parser import packets as P
+    obj = P.RawPacketData(raw)
+    res = []
+    kw = {} if root is None else {"root_container_name": root}
+    for _ in range(2):
+        pkt = P.CCSDSPacket(raw_data=obj)
+        s = monitored(defn.parse_ccsds_packet, pkt, **kw)
+        res.append((type(s.exc).__name__ if s.exc else None, list(pkt.keys()), [repr(v) for v in pkt.values()], pkt.raw_data.pos))
+    return None if res[0] == res[1] else f"first parse: {res[0][0]}, {len(res[0][1])} items, cursor {res[0][3]}; second parse of the same raw object: {res[1][0]}, {len(res[1][1])} items, cursor {res[1][3]}"
+
+
 def compare_items(libpkt, out: ref.Outcome, info: DocInfo, ctx=None, sig_prefix=()):
     """-> None or (mechanism, message). libpkt: a dict of name -> value (CCSDSPacket or partial_data)"""
     items = out.items
